@@ -24,6 +24,7 @@ structure Tspec (L : Int) (F : Nat → Int) (x : Lab × Lab × Int) : Prop where
   pre : ∀ q : Nat, (q : Int) < x.1.2.2 → letOf x.1 q = F q
   mid : x.2.2 = F x.1.2.2.toNat
   post : ∀ q : Nat, x.1.2.2 < (q : Int) → (q : Int) < L → letOf x.2.1 q = F q
+  chg : tagQ x.2.1.1 = tagQ x.1.1 + opQ x.2.2
 
 theorem Tspec.word {L : Int} {F : Nat → Int} {x : Lab × Lab × Int} (h : Tspec L F x) :
     lwLab x.1 ++ x.2.2 :: rwLab L x.2.1 = fw L.toNat F := by
@@ -80,7 +81,7 @@ theorem hopWord_fw (n i j : Nat) (hi : i < n) (hj : j < n) : hopWord n i j = fw 
 
 /-- prove a `Tspec` after the labels have been evaluated -/
 macro "tspec_tac" : tactic =>
-  `(tactic| (refine ⟨?_, ?_, rfl, rfl, ?_, ?_, ?_, ?_, ?_, ?_⟩ <;>
+  `(tactic| (refine ⟨?_, ?_, rfl, rfl, ?_, ?_, ?_, ?_, ?_, ?_, rfl⟩ <;>
       (try intro q hq0) <;> (try intro hq1) <;>
       (try simp (disch := omega) only [labOk, letOf, hopF, intF, w1F, w2F, if_pos, if_neg, Int.toNat_natCast] at *) <;>
       (try split_ifs) <;>
